@@ -78,10 +78,11 @@ def gen(seed):
         allf = dict(modname)
         names = list(allf.values())
         clash = len(names) != len(set(names))
-        for rel, node in fssim.walk_tree(spec['tree']):
-            dn = {d['name'] for d in node['dirs']} | set(node.get('links') or {})
-            if any(f.endswith('.py') and f[:-3] in dn for f in node['files']):
-                clash = True
+        for t_ in [spec['tree']] + [spec[k] for k in ('ext', 'knit') if spec.get(k)]:
+            for rel, node in fssim.walk_tree(t_):
+                dn = {d['name'] for d in node['dirs']} | set(node.get('links') or {})
+                if any(f.endswith('.py') and f[:-3] in dn for f in node['files']):
+                    clash = True
         # sys.path shadowing between overlapping roots: the first component of a module name
         # must be reachable from one root only
         nodes = dict(fssim.walk_tree(spec['tree']))
